@@ -430,6 +430,13 @@ class SubRun:
             return
         got = sdump(root.a)
         if got != want:
+            # a statement template that nests the match deeper re-indents its block, docstrings included (documented,
+            # option `docstr`): compare again with the whitespace after newlines inside docstrings neutralised
+            from .props_c03 import ddump
+            if ddump(root.a) == ddump(strip_marks(tree)):
+                self.stats['docstring_reindented_by_template'] += 1
+                got = want
+        if got != want:
             from .editsim import _first_diff
             return self.fail('result_differs_from_reference', _first_diff(want, got).replace('parsed:', 'reference:').replace('live:', 'sub():') + f' | request={req!r} src={root.src[:300]!r}')
         self.stats['structure_checks'] += 1
